@@ -10,12 +10,12 @@
 (* per slot, addressed by an index, so no product set is ever built.  The    *)
 (* first slot holds the function(s), the others argument values (Math) or    *)
 (* string pieces that are concatenated (URI).                                *)
-EXTENDS NumText, Json, TLC, SequencesExt, Randomization
+EXTENDS MathConst, Json, TLC, SequencesExt, Randomization
 CONSTANTS OpenDev, Fams, Size, NSel
 VARIABLES blk, cs
 
-MS == INSTANCE MathSpec WITH Dev <- {}
-ML == INSTANCE MathSpec WITH Dev <- OpenDev
+MS == INSTANCE MathSpec WITH Dev <- {}, KK <- MathK
+ML == INSTANCE MathSpec WITH Dev <- OpenDev, KK <- MathK
 US == INSTANCE URISpec WITH Dev <- {}
 UL == INSTANCE URISpec WITH Dev <- OpenDev
 
@@ -235,8 +235,17 @@ UriJs(c) ==
     IN  IF c.g = "" THEN inner ELSE <<c.g \o "(">> \o inner \o <<")">>
 UriSrc(c) == IF c.src = "fcc" THEN "fcc" ELSE "lit"
 
-Js(c) ==
-    CASE c.fam = "math" -> MathJs(c, MS!CallMath(c.f, c.args, <<>>))
+(* the specification's result for a case: strict (dv = "S") or under the open deviations ("L") *)
+Res(c, dv) ==
+    CASE c.fam = "math" -> IF dv = "S" THEN MS!CallMath(c.f, c.args, <<>>) ELSE ML!CallMath(c.f, c.args, <<>>)
+      [] c.fam = "gnum" -> IF dv = "S" THEN MS!CallGlobalNum(c.f, c.args, <<>>) ELSE ML!CallGlobalNum(c.f, c.args, <<>>)
+      [] c.fam = "uri" ->
+            (IF dv = "S" THEN (IF c.g = "" THEN US!CallUri(c.f, c.args, UriSrc(c), <<>>) ELSE US!CallUri2(c.g, c.f, c.args, UriSrc(c), <<>>))
+             ELSE (IF c.g = "" THEN UL!CallUri(c.f, c.args, UriSrc(c), <<>>) ELSE UL!CallUri2(c.g, c.f, c.args, UriSrc(c), <<>>)))
+      [] OTHER -> Out("", Undef, <<>>)
+
+Js(c, rs) ==
+    CASE c.fam = "math" -> MathJs(c, rs)
       [] c.fam = "gnum" -> <<c.f \o "(">> \o ArgsJs(c.args, 1) \o <<")">>
       [] c.fam = "const" -> <<"Math." \o c.f>>
       [] c.fam = "random" -> <<"RANDOK()">>
@@ -245,17 +254,12 @@ Js(c) ==
 ProjObj(r) == IF r.v.t = "cobj" THEN [r EXCEPT !.v = [t |-> "cobj", id |-> r.v.id]] ELSE r
 Strip(r) == ProjObj(Out(r.thr, r.v, r.log))
 
-ExpS(c) ==
-    CASE c.fam = "math" -> (LET rs == MS!CallMath(c.f, c.args, <<>>) IN Strip(MathOut(rs, rs)))
-      [] c.fam = "gnum" -> Strip(MS!CallGlobalNum(c.f, c.args, <<>>))
+(* the outcome of the text chosen for the strict result rs when the call behaves as r *)
+Exp(c, rs, r) ==
+    CASE c.fam = "math" -> Strip(MathOut(rs, r))
       [] c.fam = "const" -> Out("", NumV(MS!MathConsts[c.f]), <<>>)
       [] c.fam = "random" -> Out("", BoolV(TRUE), <<>>)                     \* 15.8.2.14: 0 <= random() < 1
-      [] c.fam = "uri" -> Strip(IF c.g = "" THEN US!CallUri(c.f, c.args, UriSrc(c), <<>>) ELSE US!CallUri2(c.g, c.f, c.args, UriSrc(c), <<>>))
-ExpL(c) ==
-    CASE c.fam = "math" -> Strip(MathOut(MS!CallMath(c.f, c.args, <<>>), ML!CallMath(c.f, c.args, <<>>)))
-      [] c.fam = "gnum" -> Strip(ML!CallGlobalNum(c.f, c.args, <<>>))
-      [] c.fam = "uri" -> Strip(IF c.g = "" THEN UL!CallUri(c.f, c.args, UriSrc(c), <<>>) ELSE UL!CallUri2(c.g, c.f, c.args, UriSrc(c), <<>>))
-      [] OTHER -> ExpS(c)
+      [] OTHER -> Strip(r)
 
 -----------------------------------------------------------------------------
 (* blocks: <<family, shape, b>>; the cases of a block are the indexes        *)
@@ -276,9 +280,11 @@ Next == /\ cs = None
 
 Emit ==
     cs = None \/
-    LET es == ExpS(cs)
-        ed == ExpL(cs)
-    IN  PrintT("VJSON " \o ToJson([c |-> cs, js |-> Js(cs), exp |-> es, dev |-> IF ed = es THEN <<>> ELSE <<ed>>]))
+    LET rs == Res(cs, "S")
+        rl == Res(cs, "L")
+        es == Exp(cs, rs, rs)
+        ed == Exp(cs, rs, rl)
+    IN  PrintT("VJSON " \o ToJson([c |-> cs, js |-> Js(cs, rs), exp |-> es, dev |-> IF ed = es THEN <<>> ELSE <<ed>>]))
 
 (* laws of the specification itself (property statement): for every well    *)
 (* formed string decoding inverts encoding, and unescape inverts escape on   *)
